@@ -8,11 +8,11 @@ import (
 	v "github.com/VKCOM/statshouse/internal/zzverif"
 )
 
-// unique state: 0..3 values from a concrete list (equal values, the value whose 32-bit hash is 0
-// excluded) inserted, serialized for ClickHouse and read back by the API's reader: same item set,
+// unique state: 0..3 values from a concrete list (equal values and the value whose 32-bit hash is 0
+// included) inserted, serialized for ClickHouse and read back by the API's reader: same item set,
 // same zero-item flag and skip degree, and the estimate is exact: the number of distinct values
 func Harness_C03_unique_roundtrip_exact() {
-	vals := []uint64{1, 2, 1 << 40, 12345678901234}
+	vals := []uint64{1, 2, 1 << 40, 12345678901234, 0} // 0 is the value whose 32-bit hash is 0 (kept as a flag, not in the table)
 	var u ChUnique
 	n := v.Choice(4)
 	var ins []uint64
@@ -38,6 +38,7 @@ func Harness_C03_unique_roundtrip_exact() {
 	v.Assert("C03.unique.decodes", err == nil)
 	v.Assert("C03.unique.same_count_degree_zero_flag", back.itemsCount == u.itemsCount && back.skipDegree == u.skipDegree && back.hasZeroItem == u.hasZeroItem)
 	v.Assert("C03.unique.same_estimate", back.Size(false) == u.Size(false))
+	v.Assert("C03.unique.decoded_state_writes_back_the_same_bytes", bytes.Equal(back.MarshallAppend(nil), wire))
 	for i := 0; u.buf != nil && i < u.bufSize(); i++ {
 		if x := u.buf[i]; x != 0 {
 			found := false
